@@ -6,7 +6,13 @@
     are hard-coded below as hex; yabgp is not imported);
 (b) byte strings those tests use as malformed input are reported with the expected class tag;
 (c) a corpus of whole messages built from (a), each subjected to single structural corruptions, is
-    reported with the right class tag - and the uncorrupted corpus walks clean.
+    reported with the right class tag - and the uncorrupted corpus walks clean.  Where a corruption
+    moves the cursor (a length field +-1), what is seen depends on the octets that follow; the test
+    then names the set of tags that are correct descriptions and requires one of them.  Where the
+    cause is unambiguous (header length, flags, extended-length bit, EVPN / capability / TLV lengths)
+    exactly that tag is required, for header and extended-length problems as the first line.
+(d) the walker never raises: every truncation and single-octet mutation of the corpus.
+(e) pools_c08: API shape, determinism, quick-tier size (yabgp is not needed for this).
 
 Vector names are '<test file>::<test function>:<line of the literal>' under
 /repo/yabgp/tests/unit/message/ ('a/' = 'attribute/').  Kinds:
@@ -909,10 +915,66 @@ def part_c_special():
     return n
 
 
+def part_d():
+    """Robustness: the walker never raises and always returns well-formed problem lines - every truncation of every
+    corpus message and every octet set to 0x00 / 0xFF / +1 / ^0x80 (the single-mutation menu of DESIGN C10)."""
+    n = 0
+    for label, msg, asn4, ap in corpus():
+        variants = [msg[:i] for i in range(len(msg))]
+        for i in range(len(msg)):
+            for v in (0x00, 0xff, (msg[i] + 1) & 0xff, msg[i] ^ 0x80):
+                if v != msg[i]:
+                    variants.append(msg[:i] + bytes([v]) + msg[i + 1:])
+        for m in variants:
+            for a4 in (asn4, None):
+                n += 1
+                try:
+                    probs = walker.walk(m, a4, ap)
+                except Exception as e:   # noqa
+                    fail('(d) %s: walker raised %r on %s' % (label, e, m.hex()))
+                    continue
+                for p in probs:
+                    if not isinstance(p, str) or ': ' not in p or ' ' in p.split(': ', 1)[0]:
+                        fail('(d) %s: malformed problem line %r' % (label, p))
+    print('(d) %d mutated / truncated messages walked without an exception' % n)
+
+
+def part_e():
+    """The construct-only pools: API shape, determinism, size of the quick tier."""
+    from vf.ref import pools_c08
+    kinds = {'update': 2, 'notification': 3, 'route_refresh': 4, 'keepalive': None, 'open': 5}
+    first = [(f, cv, k, repr(p)) for f, cv, k, p in pools_c08.c08_cases('quick')]
+    second = [(f, cv, k, repr(p)) for f, cv, k, p in pools_c08.c08_cases('quick')]
+    if first != second:
+        fail('(e) c08_cases(quick) is not deterministic')
+    if not 1000 <= len(first) <= 30000:
+        fail('(e) quick tier has %d cases, expected 1000..30000' % len(first))
+    fams = []
+    for (f, cv, k, _r), (_f, _cv, _k, p) in zip(first, pools_c08.c08_cases('quick')):
+        if f not in fams:
+            fams.append(f)
+        if f not in pools_c08.FAMILIES or k not in kinds:
+            fail('(e) unknown family / kind %r %r' % (f, k))
+        if not (isinstance(cv, tuple) and cv and cv[0] in ('core', 'extra') and all(isinstance(c, str) for c in cv)):
+            fail('(e) bad class vector %r' % (cv,))
+        if kinds[k] is None:
+            if p is not None:
+                fail('(e) keepalive payload must be None')
+        elif not (isinstance(p, tuple) and len(p) == kinds[k]):
+            fail('(e) payload of kind %s has the wrong shape: %r' % (k, p))
+        if k == 'update' and not (isinstance(p[0], dict) and 'attr' in p[0] and isinstance(p[1], bool)):
+            fail('(e) update payload is not (msg_dict, asn4): %r' % (p,))
+    if tuple(fams) != pools_c08.FAMILIES:
+        fail('(e) families come in the order %r' % (fams,))
+    print('(e) pools_c08 quick: %d cases, deterministic; families %s' % (len(first), pools_c08.count('quick')))
+
+
 def main():
     part_a()
     part_b()
     part_c()
+    part_d()
+    part_e()
     if FAILS:
         print('selftest_walker: %d FAILURE(S)' % len(FAILS))
         return 1
